@@ -4,15 +4,8 @@ pre-state of one (space, spin) cell that satisfies the invariant."""
 from . import chrun
 
 
-def ch_conditions(tier):
-    quick = tier == "quick"
-    tmo = 240 if quick else 2400
-    conds = []
-    # alphabet of the cell reduced to two letters (bound); candidate generic names
-    # i3 j3 i4 j4 i5 j5 i6 j6; the counter is concrete per condition
-    for counter in (3, 4, 5):
-        for n in ((1, 2) if quick else (1, 2, 3)):
-            src = f"""
+def _head(counter):
+    return f"""
 from adcgen.indices import Indices
 
 NAMES = ["i3", "j3", "i4", "j4", "i5", "j5", "i6", "j6", "i7", "j7"]
@@ -38,6 +31,18 @@ def _state(status):
     return reg
 
 
+"""
+
+
+def ch_conditions(tier):
+    quick = tier == "quick"
+    tmo = 240 if quick else 2400
+    conds = []
+    # alphabet of the cell reduced to two letters (bound); candidate generic names
+    # i3 j3 i4 j4 i5 j5 i6 j6; the counter is concrete per condition
+    for counter in (3, 4, 5):
+        for n in ((1, 2) if quick else (1, 2, 3)):
+            src = _head(counter) + f"""
 def h_registry_{counter}_{n}(s0: int, s1: int, s2: int, s3: int, s4: int, s5: int) -> bool:
     '''
     pre: all(0 <= s <= 2 for s in (s0, s1, s2, s3, s4, s5))
@@ -78,6 +83,42 @@ def h_registry_{counter}_{n}(s0: int, s1: int, s2: int, s3: int, s4: int, s5: in
     return ok
 """
             conds.append(chrun.Condition(f"registry_c{counter}_n{n}", src, timeout=tmo))
+    # one step of an *explicit* request (get_indices) from an arbitrary valid pre-state,
+    # followed by a generic request: the explicitly requested name is never handed out again
+    for counter, n in ((3, 1), (3, 2), (4, 1), (4, 2), (5, 1), (5, 2)):
+        src = _head(counter) + f"""
+def h_explicit_{counter}_{n}(s0: int, s1: int, s2: int, s3: int, s4: int, s5: int, k: int) -> bool:
+    '''
+    pre: all(0 <= s <= 2 for s in (s0, s1, s2, s3, s4, s5))
+    pre: all((int(NAMES[q][1:]) < {counter}) == (s != 0) or s == 2 for q, s in enumerate((s0, s1, s2, s3, s4, s5)))
+    pre: all(s != 1 or int(NAMES[q][1:]) < {counter} for q, s in enumerate((s0, s1, s2, s3, s4, s5)))
+    pre: 0 <= k < 8
+    post: _
+    '''
+    status = [s0, s1, s2, s3, s4, s5, 0, 0, 0, 0]
+    reg = _state(status)
+    handed_out = set(nm for nm, st in zip(NAMES, status) if st == 2)
+    name = NAMES[k]
+    before = reg._symbols["occ"][""].get(name)
+    got = reg.get_indices([name])[("occ", "")][0]
+    ok = True
+    if got.name != name or (before is not None and got is not before):
+        ok = False
+    if reg.get_indices([name])[("occ", "")][0] is not got:
+        ok = False
+    handed_out.add(name)
+    # invariant after the explicit request
+    pend = reg._generic_indices["occ"][""]
+    if len(set(pend)) != len(pend) or any(nm in reg._symbols["occ"][""] for nm in pend):
+        ok = False
+    # a following generic request never returns a name handed out before
+    res = reg.get_generic_indices(occ={n})[("occ", "")]
+    names = [s.name for s in res]
+    if len(set(names)) != {n} or any(nm in handed_out for nm in names):
+        ok = False
+    return ok
+"""
+        conds.append(chrun.Condition(f"explicit_c{counter}_n{n}", src, timeout=tmo))
     tw = conds[0].src
     conds.append(chrun.Condition("registry_tw__reach",
                                  chrun.twin(tw, "registry_3_1"), timeout=120, expect="refuted"))
